@@ -1,12 +1,274 @@
-//! C09 — ops evaluated on the real code and the generator of their inputs.
-#![allow(unused_imports, dead_code, clippy::all)]
+//! C09 — `Tarjan::components` on the real code.
+//!
+//!   tarjan_components <desc>   =>  [[ids of component 1, ascending] [component 2] ...] | panic
+//!
+//! `desc` is any digraph description (`al am mx el wu wi`; all six implement
+//! `OutNeighbors + Vertices`).  The components are printed in EMISSION order (the order of the
+//! returned `Vec`), each `BTreeSet` in its iteration (= ascending) order.
+#![allow(clippy::all)]
 
 use crate::graphs::{self, Desc};
 use crate::rng::Rng;
 use crate::value::V;
+use crate::with_digraph;
+use graaf::Tarjan;
+use std::collections::BTreeSet;
 
-pub fn eval(_op: &str, _args: &[V]) -> Option<Vec<V>> {
-    None
+pub fn eval(op: &str, args: &[V]) -> Option<Vec<V>> {
+    match op {
+        "tarjan_components" => {
+            let [desc] = args else { return None };
+            let desc = Desc::parse(desc)?;
+            let comps: Vec<BTreeSet<usize>> =
+                with_digraph!(&desc, d => Tarjan::new(&d).components().clone());
+            Some(vec![V::L(comps.into_iter().map(V::us).collect())])
+        }
+        _ => None,
+    }
 }
 
-pub fn gen(_rng: &mut Rng, _thorough: bool, _emit: &mut dyn FnMut(String)) {}
+const REPRS: [&str; 6] = ["al", "am", "mx", "el", "wu", "wi"];
+
+fn emit_desc(emit: &mut dyn FnMut(String), d: &Desc) {
+    emit(format!("tarjan_components {}", d.to_v()));
+}
+
+/// Order mixture: recursion depth matters, word boundaries do not — cap at 60.
+fn gen_order(rng: &mut Rng) -> usize {
+    let r = rng.below(100);
+    if r < 55 {
+        1 + rng.below(8)
+    } else if r < 85 {
+        9 + rng.below(16)
+    } else {
+        25 + rng.below(36)
+    }
+}
+
+fn permute(rng: &mut Rng, n: usize, arcs: &mut [(usize, usize)]) {
+    let mut p: Vec<usize> = (0..n).collect();
+    rng.shuffle(&mut p);
+    for a in arcs.iter_mut() {
+        *a = (p[a.0], p[a.1]);
+    }
+}
+
+/// SCC-structured families (besides the shared ones of `graphs::gen_arcs`).
+fn gen_scc_arcs(rng: &mut Rng, n: usize) -> (&'static str, Vec<(usize, usize)>) {
+    let mut set: BTreeSet<(usize, usize)> = BTreeSet::new();
+    let name: &'static str;
+    match rng.below(6) {
+        0 => {
+            // one Hamiltonian cycle with chords: nested cycles, a single component
+            name = "nested-cycles";
+            if n >= 2 {
+                for i in 0..n {
+                    let _ = set.insert((i, (i + 1) % n));
+                }
+                for _ in 0..rng.below(n + 1) {
+                    let (a, b) = (rng.below(n), rng.below(n));
+                    if a != b {
+                        let _ = set.insert((a, b));
+                    }
+                }
+            }
+        }
+        1 | 2 => {
+            // blocks = strongly connected pieces, arcs between blocks only forward
+            name = "scc-dag";
+            let mut bounds = vec![0usize];
+            while *bounds.last().unwrap() < n {
+                let last = *bounds.last().unwrap();
+                let len = if rng.chance(1, 3) { 1 } else { 1 + rng.below(6) };
+                bounds.push((last + len).min(n));
+            }
+            for w in bounds.windows(2) {
+                let (lo, hi) = (w[0], w[1]);
+                let len = hi - lo;
+                if len >= 2 {
+                    for i in 0..len {
+                        let _ = set.insert((lo + i, lo + (i + 1) % len));
+                    }
+                    for _ in 0..rng.below(len) {
+                        let (a, b) = (lo + rng.below(len), lo + rng.below(len));
+                        if a != b {
+                            let _ = set.insert((a, b));
+                        }
+                    }
+                }
+            }
+            // forward cross arcs (later blocks never reach back)
+            let cross = rng.below(2 * n + 1);
+            for _ in 0..cross {
+                let (a, b) = (rng.below(n), rng.below(n));
+                let (a, b) = (a.min(b), a.max(b));
+                let ba = bounds.iter().rposition(|&x| x <= a).unwrap();
+                let bb = bounds.iter().rposition(|&x| x <= b).unwrap();
+                if ba != bb {
+                    let _ = set.insert((a, b));
+                }
+            }
+        }
+        3 => {
+            // a long path (deep recursion, n singletons), optionally closed into a lollipop
+            name = "path";
+            for i in 0..n.saturating_sub(1) {
+                let _ = set.insert((i, i + 1));
+            }
+            if n >= 3 && rng.chance(1, 2) {
+                let _ = set.insert((n - 1, rng.below(n - 1)));
+            }
+        }
+        4 => {
+            // out-tree + back arcs to ancestors + cross arcs to earlier non-ancestors
+            name = "tree-back-cross";
+            let mut parent = vec![0usize; n];
+            for v in 1..n {
+                parent[v] = rng.below(v);
+                let _ = set.insert((parent[v], v));
+            }
+            for _ in 0..rng.below(n + 1) {
+                let v = rng.below(n);
+                if v == 0 {
+                    continue;
+                }
+                if rng.chance(1, 2) {
+                    // back arc: to a random ancestor
+                    let mut a = parent[v];
+                    while a != 0 && rng.chance(1, 2) {
+                        a = parent[a];
+                    }
+                    let _ = set.insert((v, a));
+                } else {
+                    let w = rng.below(v);
+                    if w != v {
+                        let _ = set.insert((v, w));
+                    }
+                }
+            }
+        }
+        _ => {
+            // two cycles joined one way or both ways
+            name = "two-cycles";
+            if n >= 4 {
+                let k = 2 + rng.below(n - 3);
+                for i in 0..k {
+                    let _ = set.insert((i, (i + 1) % k));
+                }
+                for i in k..n {
+                    let _ = set.insert((i, if i + 1 < n { i + 1 } else { k }));
+                }
+                match rng.below(3) {
+                    0 => {
+                        let _ = set.insert((rng.below(k), k + rng.below(n - k)));
+                    }
+                    1 => {
+                        let _ = set.insert((k + rng.below(n - k), rng.below(k)));
+                    }
+                    _ => {
+                        let _ = set.insert((rng.below(k), k + rng.below(n - k)));
+                        let _ = set.insert((k + rng.below(n - k), rng.below(k)));
+                    }
+                }
+                set.retain(|&(a, b)| a != b);
+            }
+        }
+    }
+    let mut arcs: Vec<(usize, usize)> = set.into_iter().collect();
+    if rng.chance(2, 3) {
+        // the DFS order must not coincide with the label order
+        permute(rng, n, &mut arcs);
+    }
+    rng.shuffle(&mut arcs);
+    (name, arcs)
+}
+
+/// Strictly ascending ids with random gaps (non-contiguous `AdjacencyMap`).
+fn sparse_ids(rng: &mut Rng, n: usize) -> Vec<usize> {
+    let mut ids = Vec::with_capacity(n);
+    let mut x = rng.below(4);
+    for _ in 0..n {
+        ids.push(x);
+        x += 1 + if rng.chance(1, 2) { 0 } else { rng.below(40) };
+    }
+    ids
+}
+
+fn finish_desc(rng: &mut Rng, repr: &str, n: usize, arcs: Vec<(usize, usize)>, sparse: bool) -> Desc {
+    let k = arcs.len();
+    let mut d = Desc { repr: repr.to_string(), verts: (0..n).collect(), arcs, weights: vec![1; k] };
+    match repr {
+        "wu" => d.weights = (0..k).map(|_| i128::from(rng.range(0, 9))).collect(),
+        "wi" => d.weights = (0..k).map(|_| i128::from(rng.range(-5, 9))).collect(),
+        "am" if sparse => {
+            let ids = sparse_ids(rng, n);
+            d.arcs = d.arcs.iter().map(|&(u, v)| (ids[u], ids[v])).collect();
+            d.verts = ids;
+        }
+        _ => {}
+    }
+    d
+}
+
+/// All digraphs on `n` vertices (no self-loops): one bit per ordered pair.
+fn all_digraphs(n: usize, mut f: impl FnMut(u32, Vec<(usize, usize)>)) {
+    let pairs: Vec<(usize, usize)> =
+        (0..n).flat_map(|u| (0..n).filter(move |&v| v != u).map(move |v| (u, v))).collect();
+    for code in 0u32..(1u32 << pairs.len()) {
+        let arcs = pairs.iter().enumerate().filter(|(i, _)| code >> i & 1 == 1).map(|(_, &p)| p).collect();
+        f(code, arcs);
+    }
+}
+
+pub fn gen(rng: &mut Rng, thorough: bool, emit: &mut dyn FnMut(String)) {
+    // (1) exhaustive small scope: every digraph on <= 3 vertices in all six representations,
+    //     every digraph on 4 vertices (representation rotates; thorough: `al` as well);
+    //     sparse ids for every other `am`.
+    let mut k = 0usize;
+    for n in 1..=4 {
+        let mut all: Vec<Vec<(usize, usize)>> = vec![];
+        all_digraphs(n, |_, arcs| all.push(arcs));
+        for arcs in all {
+            let reprs: Vec<&str> = if n <= 3 {
+                REPRS.to_vec()
+            } else if thorough {
+                vec!["al", REPRS[1 + k % 5]]
+            } else {
+                vec![REPRS[k % 6]]
+            };
+            for repr in reprs {
+                k += 1;
+                let d = finish_desc(rng, repr, n, arcs.clone(), k % 12 < 6);
+                emit_desc(emit, &d);
+            }
+        }
+    }
+    // the empty AdjacencyMap (reachable through `filter_vertices`)
+    emit("tarjan_components [am [] []]".to_string());
+
+    // (2) random: shared families and SCC-structured families, all representations
+    let n_random = if thorough { 40_000 } else { 2_000 };
+    for j in 0..n_random {
+        let repr = REPRS[rng.below(6)];
+        let n = gen_order(rng);
+        let (_, arcs) = if rng.chance(1, 2) { graphs::gen_arcs(rng, n) } else { gen_scc_arcs(rng, n) };
+        let sparse = rng.chance(1, 2);
+        let d = finish_desc(rng, repr, n, arcs, sparse);
+        emit_desc(emit, &d);
+        // the shared sparse generator (ids around word boundaries) now and then
+        if j % 16 == 0 {
+            let (_, d) = graphs::gen_am_sparse(rng, 12);
+            emit_desc(emit, &d);
+        }
+    }
+
+    // (3) deep recursion: orders 100..200, sparse SCC-structured families only
+    for _ in 0..(if thorough { 40 } else { 4 }) {
+        let repr = REPRS[rng.below(6)];
+        let n = 100 + rng.below(101);
+        let (_, arcs) = gen_scc_arcs(rng, n);
+        let sparse = rng.chance(1, 2);
+        let d = finish_desc(rng, repr, n, arcs, sparse);
+        emit_desc(emit, &d);
+    }
+}
